@@ -27,6 +27,9 @@ def c02() -> int:
     fsx(c, RES + ({"variant": "core"},), ("hivemc.bundles", "c02", {}), K=3 if quick else 4, H=7 if quick else 9, needs=needs)
     fsx(c, GRID + ({"pairs": True},), ("hivemc.bundles", "c02", {}), K=3 if quick else 4, H=9 if quick else 11,
         needs=["default:DispatchStation>ChargeQueueing", "default:DispatchBase>ReserveBase"])
+    # vehicles with idle draw: one holds the DCFC plug for many steps, a nearly empty one queues and runs dry while waiting
+    fsx(c, RES + ({"variant": "full", "mechs": ("thirsty", "thirsty", "quiet"), "name": "W-res/drain"},), ("hivemc.bundles", "c02", {}),
+        K=2 if quick else 3, H=9 if quick else 11, needs=["c02:queued_vehicle_empty"])
     return c.finish()
 
 
@@ -76,6 +79,11 @@ def c17() -> int:
         needs=["c17:vehicle_under_way_at_step_boundary", "c17:open_request_offered"])
     fsx(c, REQ + ({"dispatcher": True, "controller": False, "fleets": ("f1", "f2"), "cancel": 600, "name": "W-req/dispatcher-only/2fleets"},),
         ("hivemc.bundles", "c17_builtin", {}), K=3, H=H + 6)
+    # configuration in which vehicles already en route may be matched again (valid_dispatch_states incl. DispatchTrip)
+    fsx(c, REQ + ({"dispatcher": True, "controller": False, "cancel": 600, "dispatch_states": ["idle", "repositioning", "dispatchtrip"], "requests": ["r0", "r3", "r5"], "name": "W-req/dispatcher-only/rematch"},),
+        ("hivemc.bundles", "c17_builtin", {}), K=3, H=H + 6, needs=["c17:vehicle_under_way_at_step_boundary"])
+    fsx(c, REQ + ({"dispatcher": True, "cancel": 600, "dispatch_states": ["idle", "repositioning", "dispatchtrip"], "requests": ["r0", "r3", "r5"], "name": "W-req+dispatcher/rematch"},),
+        ("hivemc.bundles", "c17", {}), K=K, H=H)
     return c.finish()
 
 
@@ -271,6 +279,10 @@ def c18() -> int:
     fsx(c, FIFO + ({},), ("hivemc.bundles", "c18", {}), K=4 if quick else 6, H=9 if quick else 12, needs=needs)
     fsx(c, FIFO + ({"small": True},), ("hivemc.bundles", "c18", {}), K=3 if quick else 5, H=9 if quick else 12, needs=needs[:1])
     fsx(c, FIFO + ({"plugs": ["DCFC", "LEVEL_2"]},), ("hivemc.bundles", "c18", {}), K=3 if quick else 5, H=8 if quick else 11, needs=needs[:1])
+    # a vehicle that is still full when it arrives at the busy station; an initial layout at time 0 with a vehicle queued since t = 0
+    fsx(c, FIFO + ({"full_v1": True},), ("hivemc.bundles", "c18", {}), K=4 if quick else 5, H=9 if quick else 11, needs=needs[:1])
+    fsx(c, FIFO + ({"t0": True},), ("hivemc.bundles", "c18", {}), K=3 if quick else 5, H=9 if quick else 11,
+        needs=needs[:1] + ["default:ChargingStation>Idle"])
     return c.finish()
 
 
